@@ -53,6 +53,7 @@ func init() {
 	addRepl("time", repl{simrtPath, simrtName}, "Sleep")
 	addRepl("os", repl{base + "simos", "simos"}, "File", "Open", "OpenFile", "Create", "CreateTemp", "ReadFile", "Rename", "Remove", "RemoveAll", "Mkdir", "MkdirAll", "WriteFile", "Chtimes", "Chmod", "Symlink", "Link", "Truncate")
 	addRepl("runtime", repl{simrtPath, simrtName}, "GOMAXPROCS")
+	addRepl("os/exec", repl{base + "simexec", "simexec"}, "Command", "CommandContext", "Cmd")
 	addRepl("github.com/fsnotify/fsnotify", repl{base + "simfsn", "simfsn"}, "NewWatcher", "ErrEventOverflow", "Watcher", "Event", "Op", "Create", "Write", "Remove", "Rename", "Chmod")
 }
 
